@@ -192,6 +192,38 @@ def check_case(res, case):
                 if changed:
                     res.count('injections_changing_output')
                     res.sig((case['nl'], m, li, iv, tuple(outi[k].tobytes() for k in sorted(outi))))
+        # (d) the same callback interface through cycle(): once per evaluated signal and cycle, in the same order, and a callback that
+        #     does nothing leaves the multi-cycle result untouched; (e) with memory reuse the callback still sees every freshly computed value
+        def multi(cb, reuse=False, cycles=2):
+            sim = LogicSim(c, sims=n, m=m, strip_forks=strip, c_reuse=reuse)
+            for k in range(nI): lsim.assign_codes(sim, ipos[k], vals[k])
+            for k in range(nS): lsim.assign_codes(sim, spos[k], vals[nI + k])
+            if cb is None: sim.cycle(cycles)
+            else: sim.cycle(cycles, inject_cb=cb)
+            return np.array(sim.s, copy=True)
+        seq2 = []
+        s_plain = multi(None)
+        s_cb = multi(lambda line, view: seq2.append(operator.index(line)))
+        if [x for x in seq2 if x < nlines] != exp_seq * 2:
+            res.violation(_key(case, 'cycle-sequence'), case, f'cycle(2, inject_cb): callback sequence {[x for x in seq2 if x < nlines]} expected {exp_seq * 2} {nl}')
+        if not np.array_equal(s_plain, s_cb):
+            res.violation(_key(case, 'cycle-noop'), case, f'cycle(2) with a callback that does nothing differs from cycle(2) without callback {nl}')
+        seq3, seen3 = [], {}
+        def rec3(line, view):
+            li = operator.index(line)
+            seq3.append(li)
+            if li < nlines: seen3[li] = view_codes(view, n)
+        s_reuse = multi(rec3, reuse=True, cycles=1)
+        s_one = multi(None, cycles=1)
+        if sorted(x for x in seq3 if x < nlines) != sorted(exp_seq):
+            res.violation(_key(case, 'reuse-sequence'), case, f'c_reuse=True: callback offered lines {sorted(x for x in seq3 if x < nlines)} expected {sorted(exp_seq)} {nl}')
+        for li, got in seen3.items():
+            if not np.all(ref.same_mod_unknown(got, ref_vals[li])):
+                res.violation(_key(case, f'reuse-value-l{li}'), case, f'c_reuse=True: callback for line {li} did not receive the freshly computed value {nl}')
+        rows = [pos for _, pos, _ in obs]
+        if rows and not np.array_equal(s_reuse[:, rows], s_one[:, rows]):
+            res.violation(_key(case, 'reuse-noop'), case, f'c_reuse=True with a recording callback: port/state results differ from the plain run {nl}')
+        res.count('cycle_callback_runs')
         if len(res.samples) < 2: res.samples.append(case)
     except Exception as ex:
         res.violation(_key(case, 'exception-' + type(ex).__name__), case, traceback.format_exc()[-1500:])
